@@ -26,9 +26,11 @@ of the package, every class through its MRO, static / class methods), never list
 """
 from __future__ import annotations
 
+import datetime
 import itertools
 import os
 import re
+import sys
 
 from vf.rec import Rec
 
@@ -1006,8 +1008,899 @@ def tasks(tier, seed):
     return t
 
 
+
+
+# =========================================================================== L2: paired behavioural calls
+_MASKS = [
+    (re.compile(r'0x[0-9a-fA-F]{6,}'), '0x#'),
+    (re.compile(r'\d{4}-\d{2}-\d{2}[ T]\d{2}:\d{2}:\d{2}(\.\d+)?'), '<TS>'),
+    (re.compile(r'\b\d{1,2}:\d{2}:\d{2}(\.\d+)?\b'), '<T>'),
+    (re.compile(r'\d{9,}'), '#'),
+]
+
+
+def _mask(s):
+    for rx, rep in _MASKS:
+        s = rx.sub(rep, s)
+    return s
+
+
+def canon(x, depth=0, exclude=()):
+    """Deterministic, address-free, deep description of a value (numbers bit-exact)."""
+    import numpy as np
+    import pandas as pd
+
+    if x is None or isinstance(x, (bool, int)):
+        return x
+    if isinstance(x, float):
+        return repr(x)
+    if isinstance(x, (datetime.datetime, datetime.date, datetime.time, datetime.timedelta)):
+        return ('time',)  # wall-clock measurements are not part of the behaviour compared
+    if isinstance(x, str):
+        return _mask(x)
+    if isinstance(x, bytes):
+        return _mask(x.decode('latin-1'))
+    if isinstance(x, np.generic):
+        return ('np', x.dtype.str, repr(x.item()))
+    if isinstance(x, np.ndarray):
+        if x.dtype == object:
+            return ('nd-obj', x.shape, [canon(v, depth + 1) for v in x.ravel().tolist()])
+        return ('nd', x.shape, x.dtype.str, [repr(v) for v in x.ravel().tolist()])
+    if isinstance(x, pd.DataFrame):
+        return ('df', [str(c) for c in x.columns], [str(i) for i in x.index],
+                [canon(x[c].to_numpy(), depth + 1) for c in x.columns])
+    if isinstance(x, pd.Series):
+        return ('series', str(x.name), [str(i) for i in x.index], canon(x.to_numpy(), depth + 1))
+    if isinstance(x, pd.Index):
+        return ('index', [str(i) for i in x])
+    try:
+        from biogeme.expressions import Expression
+        if isinstance(x, Expression):
+            try:
+                return ('expr', type(x).__name__, _mask(str(x)))
+            except Exception as e:  # uninitialised expression
+                return ('expr', type(x).__name__, 'str() raises ' + type(e).__name__)
+    except ImportError:
+        pass
+    if isinstance(x, dict):
+        items = [(canon(k, depth + 1) if not isinstance(k, str) else k, canon(v, depth + 1)) for k, v in x.items() if k not in exclude]
+        return ('dict', sorted(items, key=repr))
+    if isinstance(x, (list, tuple)) and not hasattr(x, '_fields'):
+        return (type(x).__name__, [canon(v, depth + 1) for v in x])
+    if isinstance(x, (set, frozenset)):
+        return ('set', sorted((canon(v, depth + 1) for v in x), key=repr))
+    if isinstance(x, type):
+        return ('class', x.__qualname__)
+    if callable(x) and hasattr(x, '__qualname__'):
+        return ('fn', x.__qualname__)
+    if hasattr(x, '_asdict'):
+        return (type(x).__name__, canon(x._asdict(), depth + 1))
+    if depth >= 4:
+        return ('obj', type(x).__name__)
+    try:
+        d = vars(x)
+    except TypeError:
+        return ('obj', type(x).__name__, _mask(repr(x))[:200])
+    return ('obj', type(x).__name__, canon({k: v for k, v in d.items() if k not in exclude}, depth + 1))
+
+
+# ---- fixtures (VERIF_SEED selects the numeric constants; each run is exhaustive over its own recipe space)
+_K = [1.0, 1.5, 0.75, 2.0][_SEED % 4]
+_B = [(0.5, -0.25), (0.3, 0.6), (-0.4, 0.2), (1.25, -1.0)][_SEED % 4]
+NOISY_STATE = ('drawsProcessingTime', 'optimizationMessages', 'htmlFileName', 'F12FileName', 'latexFileName',
+               'pickleFileName', 'bootstrap_time', 'bootstrapTime', '_time', 'lastSample')
+
+
+def fx_df():
+    import pandas as pd
+    return pd.DataFrame({'id': [1, 1, 2, 2, 3], 'x': [1.0 * _K, 2.0, 3.0, 4.0, 5.0 * _K], 'y': [0.5, 1.0, 2.0, 3.5, 1.5 * _K],
+                         'choice': [1, 2, 1, 2, 1], 'av1': [1, 1, 1, 1, 1], 'av2': [1, 1, 0, 1, 1], 'g': [1, 1, 2, 2, 2]})
+
+
+def fx_db(panel=False):
+    import biogeme.database as db
+    d = db.Database('t20', fx_df())
+    if panel:
+        d.panel('id')
+    return d
+
+
+def fx_utils():
+    from biogeme.expressions import Beta, Variable
+    b1 = Beta('b1', _B[0], None, None, 0)
+    b2 = Beta('b2', _B[1], None, None, 0)
+    v = {1: b1 * Variable('x'), 2: b2 + 0.1 * Variable('y')}
+    av = {1: Variable('av1'), 2: Variable('av2')}
+    return v, av
+
+
+def fx_loglike():
+    from biogeme import models
+    from biogeme.expressions import Variable
+    v, av = fx_utils()
+    return models.loglogit(v, av, Variable('choice'))
+
+
+def fx_biogeme(formulas=None, **kw):
+    import biogeme.biogeme as bb
+    from biogeme.parameters import Parameters
+    args = dict(generate_html=False, generate_pickle=False, save_iterations=False, number_of_threads=1)
+    args.update(kw)
+    b = bb.BIOGEME(fx_db(), fx_loglike() if formulas is None else formulas, parameters=Parameters(), **args)
+    b.modelName = 'm20'
+    return b
+
+
+_RES_PICKLE = None
+
+
+def fx_results():
+    """A results object of a tiny estimation; built once per worker, handed out as independent copies."""
+    global _RES_PICKLE
+    import pickle
+    if _RES_PICKLE is None:
+        import numpy as np
+        np.random.seed(20)
+        b = fx_biogeme(bootstrap_samples=5)
+        r = b.estimate(run_bootstrap=True)
+        _RES_PICKLE = pickle.dumps(r)
+    return pickle.loads(_RES_PICKLE)
+
+
+def fx_nests(cross=False):
+    from biogeme.expressions import Beta
+    from biogeme.nests import (NestsForCrossNestedLogit, NestsForNestedLogit, OneNestForCrossNestedLogit,
+                               OneNestForNestedLogit)
+    mu1 = Beta('mu1', 1.5, 1, 10, 0)
+    if cross:
+        n1 = OneNestForCrossNestedLogit(nest_param=mu1, dict_of_alpha={1: 0.5, 2: 1.0}, name='n1')
+        n2 = OneNestForCrossNestedLogit(nest_param=Beta('mu2', 2.0, 1, 10, 0), dict_of_alpha={1: 0.5}, name='n2')
+        return NestsForCrossNestedLogit(choice_set=[1, 2], tuple_of_nests=(n1, n2))
+    n1 = OneNestForNestedLogit(nest_param=mu1, list_of_alternatives=[1, 2], name='n1')
+    return NestsForNestedLogit(choice_set=[1, 2], tuple_of_nests=(n1,))
+
+
+EVALUABLE = {'Numeric', 'Beta', 'Variable', 'Plus', 'Minus', 'Times', 'Divide', 'Power', 'bioMin', 'bioMax', 'And', 'Or',
+             'Equal', 'NotEqual', 'Less', 'LessOrEqual', 'Greater', 'GreaterOrEqual', 'UnaryMinus', 'exp', 'log', 'logzero',
+             'sin', 'cos', 'bioNormalCdf', 'PowerConstant', 'BelongsTo', 'bioMultSum', 'Elem', 'bioLinearUtility',
+             'ConditionalSum', '_bioLogLogit', '_bioLogLogitFullChoiceSet'}
+
+
+# the engine raises (and then keeps a sticky error / may crash) when asked for derivatives of these
+NO_DERIVATIVES = {'And', 'Or', 'BelongsTo'}
+
+
+def fx_expr(name):
+    """Receiver factory for the expression classes, by class name.  Returns None when there is no recipe."""
+    import biogeme.expressions as ex
+    from biogeme.expressions import base_expressions, binary_expressions, comparison_expressions, elementary_expressions, \
+        logit_expressions, nary_expressions, unary_expressions
+    import biogeme.catalog as cat
+
+    def b():
+        return ex.Beta('b1', _B[0], None, None, 0)
+
+    def b2():
+        return ex.Beta('b2', _B[1], None, None, 0)
+
+    def n():
+        return ex.Numeric(2.5 * _K)
+
+    def x():
+        return ex.Variable('x')
+
+    binary = {k: getattr(binary_expressions, k) for k in
+              ('Plus', 'Minus', 'Times', 'Divide', 'Power', 'bioMin', 'bioMax', 'And', 'Or', 'BinaryOperator')}
+    compar = {k: getattr(comparison_expressions, k) for k in
+              ('Equal', 'NotEqual', 'Less', 'LessOrEqual', 'Greater', 'GreaterOrEqual', 'ComparisonOperator')}
+    unary = {k: getattr(unary_expressions, k) for k in
+             ('UnaryMinus', 'exp', 'log', 'logzero', 'sin', 'cos', 'bioNormalCdf', 'MonteCarlo', 'PanelLikelihoodTrajectory',
+              'UnaryOperator')}
+    if name in binary:
+        return binary[name](b() if name != 'Power' else ex.Numeric(1.5), n() if name not in ('And', 'Or') else x())
+    if name in compar:
+        return compar[name](x(), n())
+    if name in unary:
+        return unary[name](ex.Numeric(0.5) + b() * b())
+    table = {
+        'Expression': lambda: base_expressions.Expression(),
+        'Numeric': lambda: ex.Numeric(3.5 * _K),
+        'Beta': b,
+        'Variable': x,
+        'Elementary': lambda: elementary_expressions.Elementary('e'),
+        'bioDraws': lambda: ex.bioDraws('d', 'NORMAL'),
+        'RandomVariable': lambda: ex.RandomVariable('omega'),
+        'DefineVariable': lambda: elementary_expressions.DefineVariable('z20', x() * 2, fx_db()),
+        'PowerConstant': lambda: unary_expressions.PowerConstant(x(), 2.0),
+        'BelongsTo': lambda: unary_expressions.BelongsTo(x(), {2.0, 3.0}),
+        'Derive': lambda: unary_expressions.Derive(b() * b() * x(), 'b1'),
+        'Integrate': lambda: unary_expressions.Integrate(ex.RandomVariable('omega') * b(), 'omega'),
+        'bioMultSum': lambda: nary_expressions.bioMultSum([b(), n(), b2() * x()]),
+        'Elem': lambda: nary_expressions.Elem({0: b(), 1: n() * x()}, ex.Variable('av2')),
+        'bioLinearUtility': lambda: nary_expressions.bioLinearUtility(
+            [nary_expressions.LinearTermTuple(beta=b(), x=x()), nary_expressions.LinearTermTuple(beta=b2(), x=ex.Variable('y'))]),
+        'ConditionalSum': lambda: nary_expressions.ConditionalSum(
+            [nary_expressions.ConditionalTermTuple(condition=ex.Variable('av2'), term=b() * x()),
+             nary_expressions.ConditionalTermTuple(condition=ex.Numeric(1), term=n())]),
+        'LogLogit': lambda: logit_expressions.LogLogit({1: b() * x(), 2: b2()}, None, ex.Variable('choice')),
+        '_bioLogLogit': lambda: logit_expressions._bioLogLogit({1: b() * x(), 2: b2()}, {1: ex.Variable('av1'), 2: ex.Variable('av2')}, ex.Variable('choice')),
+        '_bioLogLogitFullChoiceSet': lambda: logit_expressions._bioLogLogitFullChoiceSet({1: b() * x(), 2: b2()}, ex.Variable('choice')),
+        'Catalog': lambda: cat.Catalog('cat20', [cat.NamedExpression(name='a', expression=b() * x()),
+                                                 cat.NamedExpression(name='c', expression=n())]),
+    }
+    return table[name]() if name in table else None
+
+
+def _seed_rng():
+    import random
+    import numpy as np
+    np.random.seed(20 + _SEED)
+    random.seed(20 + _SEED)
+
+
+def _snapshot_files():
+    out = {}
+    for root, _, files in os.walk('.'):
+        for fn in files:
+            pth = os.path.join(root, fn)
+            try:
+                with open(pth, 'rb') as fh:
+                    raw = fh.read()
+            except OSError:
+                continue
+            if fn.endswith(('.pickle', '.pkl')):
+                out[pth] = ('binary', len(raw) > 0)
+            else:
+                out[pth] = _mask(raw.decode('utf-8', 'replace'))
+    return out
+
+
+def _clean_cwd():
+    import shutil
+    for fn in os.listdir('.'):
+        try:
+            if os.path.isdir(fn):
+                shutil.rmtree(fn)
+            else:
+                os.remove(fn)
+        except OSError:
+            pass
+
+
+def run_side(build, call, post, state_of):
+    """Builds a fresh context, performs one call, returns the canonical observation of that side."""
+    _clean_cwd()
+    _seed_rng()
+    ctx = build()
+    before = _snapshot_files()
+    _seed_rng()
+    res = exc = None
+    with Observe() as obs:
+        try:
+            res = call(ctx)
+            if post is not None:
+                res = post(res, ctx)
+        except BaseException as e:  # noqa
+            exc = e
+    files = {k: v for k, v in _snapshot_files().items() if before.get(k) != v}
+    side = dict(
+        result=canon(res) if exc is None else None,
+        exc=type(exc).__name__ if exc is not None else None,
+        exc_msg=_mask(str(exc))[:300] if exc is not None else None,
+        state=canon(state_of(ctx), exclude=NOISY_STATE) if state_of else None,
+        files=sorted(files.items()),
+        dep=[_mask(str(w.message)) for w in obs.dep_warnings()],
+        other_warn=sorted(_mask(str(w.message)) for w in obs.other_warnings()),
+        logs=sorted(obs.records),
+        out=_mask(obs.out),
+    )
+    _clean_cwd()
+    return side, exc
+
+
+def compare_sides(old, new, newname, extra_warn_names=()):
+    """Oracle of a paired call.  `old` must equal `new` except for exactly one more DeprecationWarning naming newname."""
+    bad = []
+    if old['exc'] != new['exc']:
+        bad.append(('different-outcome', f'old name: {old["exc"] or "returns"} ({old["exc_msg"]}); new name: {new["exc"] or "returns"} ({new["exc_msg"]})',
+                    new['exc'] or 'returns', old['exc'] or 'returns'))
+        return bad
+    if old['result'] != new['result']:
+        bad.append(('different-result', 'first difference (old vs new) at ' + _first_diff(old['result'], new['result'], 'result'),
+                    str(new['result'])[:600], str(old['result'])[:600]))
+    if old['state'] != new['state']:
+        bad.append(('different-side-effects', 'receiver state differs after the call: ' + _first_diff(old['state'], new['state']), 'same state', 'differs'))
+    if old['files'] != new['files']:
+        bad.append(('different-side-effects', f'files written differ: {[f for f, _ in old["files"]]} vs {[f for f, _ in new["files"]]}',
+                    [f for f, _ in new['files']], [f for f, _ in old['files']]))
+    extra = list(old['dep'])
+    for m in new['dep']:
+        if m in extra:
+            extra.remove(m)
+        else:
+            bad.append(('adds-more-than-the-warning', f'the new name warns {m!r}, the old one does not', m, None))
+    if len(extra) != 1:
+        bad.append(('warning-count', f'the old name adds {len(extra)} DeprecationWarning(s) over the new one: {extra}', 1, len(extra)))
+    else:
+        for nm in (newname,) + tuple(extra_warn_names):
+            if not re.search(r'(?<![A-Za-z0-9_])' + re.escape(nm) + r'(?![A-Za-z0-9_])', extra[0]):
+                bad.append(('warning-does-not-name-replacement', f'{extra[0]!r} does not name {nm!r}', nm, extra[0]))
+    if old['other_warn'] != new['other_warn'] or old['logs'] != new['logs'] or old['out'] != new['out']:
+        bad.append(('adds-more-than-the-warning', f'warnings/log records/output differ: {old["other_warn"]}/{old["logs"]}/{old["out"][:80]!r} vs '
+                    f'{new["other_warn"]}/{new["logs"]}/{new["out"][:80]!r}', 'same', 'differs'))
+    return bad
+
+
+def _first_diff(a, b, path=''):
+    if type(a) != type(b):
+        return f'{path}: {str(a)[:80]} vs {str(b)[:80]}'
+    if isinstance(a, (list, tuple)):
+        if len(a) != len(b):
+            return f'{path}: length {len(a)} vs {len(b)}'
+        for i, (x, y) in enumerate(zip(a, b)):
+            if x != y:
+                return _first_diff(x, y, f'{path}[{i}]')
+    return f'{path}: {str(a)[:80]} vs {str(b)[:80]}'
+
+
+# ---- recipe tables.  An argument set is (label, lambda ctx: (args, kwargs)); ctx is what `build` returned.
+def _np(v):
+    import numpy as np
+    return np.array(v, dtype=float)
+
+
+def _fun_recipes():
+    """module-level aliases: (defining module, alias) -> dict(build, argsets, post)"""
+    from biogeme.expressions import Beta, Numeric, Variable
+
+    def mk_v(ctx=None):
+        v, av = fx_utils()
+        return dict(v=v, av=av, nests=fx_nests(False), cnests=fx_nests(True), choice=Variable('choice'))
+
+    def call_at(points):
+        def post(f, ctx):
+            return [f(_np(p)) for p in points]
+        return post
+
+    def quad(x):
+        from biogeme.function_output import FunctionOutput
+        import numpy as np
+        return FunctionOutput(function=float(x[0] ** 2 * x[1] + x[1] ** 3), gradient=np.array([2 * x[0] * x[1], x[0] ** 2 + 3 * x[1] ** 2]),
+                              hessian=np.array([[2 * x[1], 2 * x[0]], [2 * x[0], 6 * x[1]]]))
+
+    R = {}
+    R[('biogeme.cnl', 'cnl_G')] = dict(build=mk_v, post=call_at([[1.0, 2.0 * _K], [0.5, 0.25]]), argsets=[
+        ('cross', lambda c: (([1, 2], c['cnests']), {}))])
+    R[('biogeme.cnl', 'cnl_CDF')] = dict(build=mk_v, post=call_at([[0.3, -0.2 * _K], [1.0, 1.0]]), argsets=[
+        ('cross', lambda c: (([1, 2], c['cnests']), {}))])
+    dr = 'biogeme.draws'
+    R[(dr, 'getUniform')] = dict(argsets=[('3x4', lambda c: ((3, 4), {})), ('sym', lambda c: ((2, 5), dict(symmetric=True)))])
+    R[(dr, 'getLatinHypercubeDraws')] = dict(argsets=[
+        ('3x4', lambda c: ((3, 4), {})), ('sym', lambda c: ((2, 3, True), {})),
+        ('given', lambda c: ((2, 3), dict(symmetric=False, uniform_numbers=_np([0.1, 0.9, 0.5, 0.3, 0.7, 0.2])))),
+        ('given-old-kw', lambda c: ((2, 3), dict(uniformNumbers=_np([0.1, 0.9, 0.5, 0.3, 0.7, 0.2]))))])
+    R[(dr, 'getHaltonDraws')] = dict(argsets=[
+        ('3x4', lambda c: ((3, 4), {})), ('base3', lambda c: ((2, 5), dict(symmetric=True, base=3, skip=7))),
+        ('shuffled', lambda c: ((2, 4), dict(shuffled=True))), ('long', lambda c: ((2, 3), dict(base=5, skip=0, shuffled=False)))])
+    R[(dr, 'getAntithetic')] = dict(argsets=[
+        ('uniform', lambda c: ((__import__('biogeme.draws', fromlist=['x']).get_uniform, 3, 4), {})),
+        ('halton', lambda c: ((__import__('biogeme.draws', fromlist=['x']).get_halton_draws, 2, 6), {}))])
+    R[(dr, 'getNormalWichuraDraws')] = dict(argsets=[
+        ('3x4', lambda c: ((3, 4), {})), ('anti', lambda c: ((2, 4), dict(antithetic=True))),
+        ('given', lambda c: ((2, 2), dict(uniform_numbers=_np([[0.1, 0.9], [0.5, 0.3]]))))])
+    cn = 'biogeme.models.cnl'
+    four = [('avail', lambda c: ((c['v'], c['av'], c['cnests'], c['choice']), {})),
+            ('noavail', lambda c: ((c['v'], None, c['cnests'], 1), {})),
+            ('kw', lambda c: ((), dict(util=c['v'], availability=c['av'], nests=c['cnests'], choice=2)))]
+    R[(cn, 'cnl_avail')] = dict(build=mk_v, argsets=four, evaluate=True)
+    R[(cn, 'logcnl_avail')] = dict(build=mk_v, argsets=four, evaluate=True)
+    three_c = [('avail', lambda c: ((c['v'], c['av'], c['cnests']), {})), ('noavail', lambda c: ((c['v'], None, c['cnests']), {}))]
+    R[(cn, 'getMevForCrossNested')] = dict(build=mk_v, argsets=three_c, evaluate=True)
+    R[(cn, 'getMevForCrossNestedMu')] = dict(build=mk_v, evaluate=True, argsets=[
+        ('avail', lambda c: ((c['v'], c['av'], c['cnests'], Beta('mu', 1.0, None, None, 0)), {})),
+        ('noavail', lambda c: ((c['v'], None, c['cnests'], 1.0), {}))])
+    ne = 'biogeme.models.nested'
+    three_n = [('avail', lambda c: ((c['v'], c['av'], c['nests']), {})), ('noavail', lambda c: ((c['v'], None, c['nests']), {}))]
+    R[(ne, 'getMevGeneratingForNested')] = dict(build=mk_v, argsets=three_n, evaluate=True)
+    R[(ne, 'getMevForNested')] = dict(build=mk_v, argsets=three_n, evaluate=True)
+    R[(ne, 'getMevForNestedMu')] = dict(build=mk_v, evaluate=True, argsets=[
+        ('avail', lambda c: ((c['v'], c['av'], c['nests'], Beta('mu', 1.0, None, None, 0)), {})),
+        ('noavail', lambda c: ((c['v'], None, c['nests'], 1.0), {}))])
+    five = [('avail', lambda c: ((c['v'], c['av'], c['nests'], c['choice'], Beta('mu', 1.0, None, None, 0)), {})),
+            ('noavail', lambda c: ((c['v'], None, c['nests'], 1, 1.0), {}))]
+    R[(ne, 'nestedMevMu')] = dict(build=mk_v, argsets=five, evaluate=True)
+    R[(ne, 'lognestedMevMu')] = dict(build=mk_v, argsets=five, evaluate=True)
+    mv = 'biogeme.models.mev'
+
+    def es(c, av):
+        from biogeme.models import get_mev_for_nested
+        lg = get_mev_for_nested(c['v'], c['av'] if av else None, c['nests'])
+        return ((c['v'], lg, c['av'] if av else None, {1: Numeric(0.1), 2: Numeric(-0.2 * _K)}, c['choice']), {})
+
+    R[(mv, 'logmev_endogenousSampling')] = dict(build=mk_v, evaluate=True, argsets=[('avail', lambda c: es(c, True)), ('noavail', lambda c: es(c, False))])
+    R[(mv, 'mev_endogenousSampling')] = dict(build=mk_v, evaluate=True, argsets=[('avail', lambda c: es(c, True)), ('noavail', lambda c: es(c, False))])
+    pw = 'biogeme.models.piecewise'
+    R[(pw, 'piecewiseVariables')] = dict(evaluate=True, argsets=[
+        ('str', lambda c: (('x', [None, 2.0 * _K, 4.0, None]), {})), ('var', lambda c: ((Variable('x'), [0, 2.5, 10]), {})),
+        ('bad', lambda c: (('x', [None, None]), {}))])
+    R[(pw, 'piecewiseFormula')] = dict(evaluate=True, argsets=[
+        ('auto', lambda c: (('x', [None, 2.0 * _K, 4.0, None]), {})),
+        ('betas', lambda c: ((Variable('x'), [0, 2.5, 10], [Beta('pa', 0.5, None, None, 0), Beta('pb', -1, None, None, 0)]), {})),
+        ('wrong-len', lambda c: (('x', [0, 1, 2], [Beta('pa', 0.5, None, None, 0)]), {}))])
+    R[(pw, 'piecewiseFunction')] = dict(argsets=[
+        ('in', lambda c: ((3.0 * _K, [None, 2.0, 4.0, None], [0.5, -1.0, 2.0]), {})), ('first', lambda c: ((1.0, [0, 2.0, 4.0], [0.5, -1.0]), {})),
+        ('bad', lambda c: ((1.0, [0, 2.0], [0.5, -1.0]), {}))])
+    R[('biogeme.results', 'calcPValue')] = dict(argsets=[(f't={t}', (lambda t: lambda c: ((t,), {}))(t)) for t in (0.0, 1.96 * _K, -3.0, 40.0)])
+    R[('biogeme.results', 'compileEstimationResults')] = dict(build=lambda: dict(r=fx_results(), r2=fx_results()), argsets=[
+        ('one', lambda c: (({'m1': c['r']},), {})),
+        ('two', lambda c: (({'m1': c['r'], 'm2': c['r2']},), dict(include_parameter_estimates=True, include_robust_stderr=True, include_robust_ttest=True, formatted=False)))])
+    R[('biogeme.multiobjectives', 'AIC_BIC_dimension')] = dict(build=lambda: dict(r=fx_results()), argsets=[('res', lambda c: ((c['r'],), {}))])
+
+    def seg(c, prefix=None):
+        from biogeme.segmentation import DiscreteSegmentationTuple
+        t = [DiscreteSegmentationTuple(variable='g', mapping={1: 'one', 2: 'two'})]
+        return ((Beta('bs', 0.5 * _K, None, None, 0), t) + ((prefix,) if prefix else ()), {})
+
+    R[('biogeme.segmentation', 'segment_parameter')] = dict(evaluate=True, argsets=[('default', lambda c: seg(c)), ('prefix', lambda c: seg(c, 'pre'))])
+    td = 'biogeme.tools.derivatives'
+    R[(td, 'findiff_H')] = dict(build=lambda: dict(f=quad), argsets=[('p1', lambda c: ((c['f'], _np([1.0, 2.0 * _K])), {})), ('p2', lambda c: ((c['f'], _np([-0.5, 0.25])), {}))])
+    R[(td, 'checkDerivatives')] = dict(build=lambda: dict(f=quad), argsets=[
+        ('plain', lambda c: ((c['f'], _np([1.0, 2.0 * _K])), {})), ('names', lambda c: ((c['f'], _np([0.5, -1.0]), ['u', 'v'], True), {}))])
+    R[('biogeme.tools.database', 'countNumberOfGroups')] = dict(build=lambda: dict(df=fx_df()), argsets=[
+        ('id', lambda c: ((c['df'], 'id'), {})), ('g', lambda c: ((c['df'], 'g'), {})), ('missing', lambda c: ((c['df'], 'nope'), {}))])
+    for a in ('getVersion', 'getHtml', 'getText', 'getLaTeX'):
+        R[('biogeme.version', a)] = dict(argsets=[('noarg', lambda c: ((), {}))])
+    return R
+
+
+def _eval_expr_post(res, ctx):
+    """Expressions (or containers of them) are also evaluated on the tiny database, so that two different formulas
+    with the same text cannot pass."""
+    from biogeme.expressions import Expression
+    vals = []
+
+    def ev(e):
+        try:
+            return canon(e.get_value_c(database=fx_db(), betas=None, number_of_draws=5, aggregation=False, prepare_ids=True))
+        except Exception as exc:  # noqa
+            if type(exc).__name__ == 'RuntimeError':
+                raise
+            return 'evaluation raises ' + type(exc).__name__
+
+    if isinstance(res, Expression):
+        vals = [ev(res)]
+    elif isinstance(res, dict):
+        vals = [(str(k), ev(v)) for k, v in res.items() if isinstance(v, Expression)]
+    elif isinstance(res, (list, tuple)):
+        vals = [ev(v) for v in res if isinstance(v, Expression)]
+    return (res, vals)
+
+
+def _method_recipes():
+    """class-level aliases: (owner class name, alias) -> dict(receivers=[(label, build)], argsets, post, state)"""
+    from biogeme.expressions import Variable, Numeric
+    import biogeme.database as dbm
+    R = {}
+    # ---------------- Database
+    D1 = [('flat', lambda: dict(r=fx_db(False)))]
+    DP = [('panel', lambda: dict(r=fx_db(True)))]
+    DB = D1 + DP
+    av = lambda: {1: Variable('av1'), 2: Variable('av2')}  # noqa: E731
+    R[('Database', 'valuesFromDatabase')] = dict(receivers=D1, argsets=[('expr', lambda c: ((Variable('x') * 2 + Variable('y'),), {})), ('num', lambda c: ((Numeric(1.5),), {}))])
+    R[('Database', 'checkAvailabilityOfChosenAlt')] = dict(receivers=D1, argsets=[
+        ('ok', lambda c: ((av(), Variable('choice')), {})), ('kw', lambda c: ((), dict(avail={1: Variable('av2'), 2: Variable('av1')}, choice=Variable('choice')))),
+        ('bad-choice', lambda c: ((av(), Variable('g') + 5), {}))])
+    R[('Database', 'choiceAvailabilityStatistics')] = dict(receivers=D1, argsets=[('ok', lambda c: ((av(), Variable('choice')), {}))])
+    R[('Database', 'scaleColumn')] = dict(receivers=DB, argsets=[('x', lambda c: (('x', 0.1 * _K), {})), ('missing', lambda c: (('nope', 2.0), {}))])
+    R[('Database', 'suggestScaling')] = dict(receivers=D1, argsets=[('default', lambda c: ((), {})), ('cols', lambda c: ((['x', 'y'],), dict(report_all=True))), ('bad', lambda c: ((['nope'],), {}))])
+    R[('Database', 'sampleWithReplacement')] = dict(receivers=DB, argsets=[('default', lambda c: ((), {})), ('3', lambda c: ((3,), {})), ('kw', lambda c: ((), dict(size=7)))])
+    R[('Database', 'sampleIndividualMapWithReplacement')] = dict(receivers=DB, argsets=[('default', lambda c: ((), {})), ('2', lambda c: ((2,), {}))])
+    R[('Database', 'addColumn')] = dict(receivers=D1, argsets=[('new', lambda c: ((Variable('x') * 2, 'x2'), {})), ('existing', lambda c: ((Variable('x') * 2, 'y'), {}))])
+    R[('Database', 'DefineVariable')] = dict(receivers=D1, argsets=[('new', lambda c: (('z20', Variable('x') + 1), {})), ('existing', lambda c: (('y', Variable('x')), {}))])
+    R[('Database', 'dumpOnFile')] = dict(receivers=DB, argsets=[('noarg', lambda c: ((), {}))])
+
+    def my_rng(sample_size, number_of_draws):
+        import numpy as np
+        return np.arange(sample_size * number_of_draws, dtype=float).reshape(sample_size, number_of_draws) / 100.0
+
+    R[('Database', 'setRandomNumberGenerators')] = dict(receivers=D1, argsets=[
+        ('user', lambda c: (({'MYGEN': (my_rng, 'test generator')},), {})), ('reserved', lambda c: (({'NORMAL': (my_rng, 'clash')},), {}))])
+    R[('Database', 'generateDraws')] = dict(receivers=DB, argsets=[
+        ('two', lambda c: (({'d1': 'NORMAL', 'd2': 'UNIFORM_HALTON2'}, ['d1', 'd2'], 4), {})),
+        ('anti', lambda c: (({'d1': 'NORMAL_ANTI'}, ['d1'], 6), {})), ('unknown', lambda c: (({'d1': 'NOPE'}, ['d1'], 3), {}))])
+    for a in ('getNumberOfObservations', 'getSampleSize', 'isPanel', 'buildPanelMap'):
+        R[('Database', a)] = dict(receivers=DB, argsets=[('noarg', lambda c: ((), {}))])
+    R[('Database', 'generateFlatPanelDataframe')] = dict(receivers=DB, argsets=[
+        ('default', lambda c: ((), {})), ('save', lambda c: ((), dict(save_on_file=True, identical_columns=['g']))), ('ident-none', lambda c: ((False, []), {}))])
+    R[('Database', 'descriptionOfNativeDraws')] = dict(receivers=DB, argsets=[('noarg', lambda c: ((), {}))],
+                                                      new_call=lambda c, a, k: __import__('biogeme.native_draws', fromlist=['x']).description_of_native_draws(*a, **k),
+                                                      via_class=True)
+    # ---------------- IdManager
+    def idm():
+        from biogeme.expressions.idmanager import IdManager
+        e = fx_loglike()
+        return dict(r=IdManager([e], fx_db(), 10), e=e)
+
+    R[('IdManager', 'setDataMap')] = dict(receivers=[('idm', idm)], argsets=[('df', lambda c: ((fx_df(),), {}))])
+    R[('IdManager', 'setData')] = dict(receivers=[('idm', idm)], argsets=[('df', lambda c: ((fx_df(),), {}))])
+    # ---------------- BIOGEME
+    B = [('logit', lambda: dict(r=fx_biogeme()))]
+
+    def bsim():
+        from biogeme.expressions import exp
+        v, a = fx_utils()
+        return dict(r=fx_biogeme(formulas={'u1': v[1], 'p': exp(v[1]) / (exp(v[1]) + exp(v[2]))}))
+
+    x0 = lambda: _np([_B[0], _B[1]])  # noqa: E731
+    R[('BIOGEME', 'getBoundsOnBeta')] = dict(receivers=B, argsets=[('b1', lambda c: (('b1',), {})), ('unknown', lambda c: (('nope',), {}))])
+    R[('BIOGEME', 'calculateNullLoglikelihood')] = dict(receivers=B, argsets=[('avail', lambda c: (({1: 1, 2: 1},), {})), ('expr', lambda c: ((av(),), {}))])
+    R[('BIOGEME', 'calculateInitLikelihood')] = dict(receivers=B, argsets=[('noarg', lambda c: ((), {}))])
+    R[('BIOGEME', 'calculateLikelihood')] = dict(receivers=B, argsets=[('unscaled', lambda c: ((x0(), False), {})), ('scaled', lambda c: ((x0(),), dict(scaled=True))),
+                                                                      ('wrong-size', lambda c: ((_np([0.1]), False), {}))])
+    R[('BIOGEME', 'calculateLikelihoodAndDerivatives')] = dict(receivers=B, argsets=[
+        ('all', lambda c: ((x0(), False), dict(hessian=True, bhhh=True))), ('grad', lambda c: ((x0(), True), {}))])
+    R[('BIOGEME', 'likelihoodFiniteDifferenceHessian')] = dict(receivers=B, argsets=[('x0', lambda c: ((x0(),), {}))])
+    R[('BIOGEME', 'checkDerivatives')] = dict(receivers=B, argsets=[('x0', lambda c: ((x0(),), {})), ('verbose', lambda c: (([0.1, 0.2],), dict(verbose=True)))])
+    R[('BIOGEME', 'setRandomInitValues')] = dict(receivers=B, argsets=[('default', lambda c: ((), {})), ('5', lambda c: ((5.0 * _K,), {}))])
+    R[('BIOGEME', 'quickEstimate')] = dict(receivers=B, argsets=[('noarg', lambda c: ((), {}))],
+                                           post=lambda r, c: (r.get_beta_values(), r.data.logLike, r.data.nparam))
+    R[('BIOGEME', 'confidenceIntervals')] = dict(receivers=[('sim', bsim)], argsets=[
+        ('two', lambda c: (([{'b1': 0.1, 'b2': 0.2}, {'b1': 0.3 * _K, 'b2': -0.2}],), {})),
+        ('size', lambda c: (([{'b1': 0.1, 'b2': 0.2}, {'b1': 0.3, 'b2': -0.2}, {'b1': 0.5, 'b2': 0.0}], 0.5), {}))])
+    # ---------------- bioResults
+    RS = [('estimated', lambda: dict(r=fx_results()))]
+    no = [('noarg', lambda c: ((), {}))]
+    for a in ('writePickle', 'shortSummary', 'getGeneralStatistics', 'printGeneralStatistics', 'numberOfFreeParameters', 'getVarCovar',
+              'getRobustVarCovar', 'getBootstrapVarCovar', 'writeLaTeX'):
+        R[('bioResults', a)] = dict(receivers=RS, argsets=no)
+    flag = lambda kwname: no + [('false', lambda c: ((False,), {})), ('kw', (lambda kwname: lambda c: ((), {kwname: False}))(kwname))]  # noqa: E731
+    R[('bioResults', 'getLaTeX')] = dict(receivers=RS, argsets=flag('only_robust') + [('old-kw', lambda c: ((), dict(onlyRobust=False)))])
+    R[('bioResults', 'getEstimatedParameters')] = dict(receivers=RS, argsets=flag('only_robust'))
+    R[('bioResults', 'getHtml')] = dict(receivers=RS, argsets=flag('only_robust'))
+    R[('bioResults', 'writeHtml')] = dict(receivers=RS, argsets=flag('only_robust'))
+    R[('bioResults', 'getF12')] = dict(receivers=RS, argsets=flag('robust_std_err'))
+    R[('bioResults', 'writeF12')] = dict(receivers=RS, argsets=flag('robust_std_err'))
+    R[('bioResults', 'getCorrelationResults')] = dict(receivers=RS, argsets=no + [('subset', lambda c: ((['b1', 'b2'],), {})), ('unknown', lambda c: ((['b1', 'nope'],), {}))])
+    R[('bioResults', 'getBetaValues')] = dict(receivers=RS, argsets=no + [('b1', lambda c: ((['b1'],), {})), ('unknown', lambda c: ((['nope'],), {}))])
+    R[('bioResults', 'getBetasForSensitivityAnalysis')] = dict(receivers=RS, argsets=[
+        ('normal', lambda c: ((['b1', 'b2'],), dict(size=5, use_bootstrap=False))), ('bootstrap', lambda c: ((['b1', 'b2'],), {})), ('one', lambda c: ((['b2'], 3, False), {}))])
+    return R
+
+
+EXPR_ALIAS_ARGSETS = {
+    'getValue': [('noarg', 'any', lambda c: ((), {}))],
+    'getValue_c': [
+        ('rows', 'eval', lambda c: ((), dict(database=fx_db(), prepare_ids=True))),
+        ('betas-agg', 'eval', lambda c: ((fx_db(), {'b1': 0.3 * _K, 'b2': -0.1}), dict(number_of_draws=5, aggregation=True, prepare_ids=True))),
+        ('old-kw', 'eval', lambda c: ((), dict(database=fx_db(), numberOfDraws=5, prepareIds=True))),
+    ],
+    'getValueAndDerivatives': [
+        ('all', 'deriv', lambda c: ((), dict(database=fx_db(), number_of_draws=5, gradient=True, hessian=True, bhhh=True, aggregation=True, prepare_ids=True))),
+        ('rows', 'deriv', lambda c: (({'b1': 0.3 * _K, 'b2': -0.1}, fx_db()), dict(gradient=True, hessian=False, bhhh=False, aggregation=False, prepare_ids=True))),
+    ],
+    'createFunction': [
+        ('fgh', 'deriv', lambda c: ((), dict(database=fx_db(), number_of_draws=5, gradient=True, hessian=True, bhhh=False))),
+        ('f', 'eval', lambda c: ((fx_db(), 5, False, False, False), {})),
+    ],
+    'getStatusIdManager': [('noarg', 'any', lambda c: ((), {})), ('prepared', 'prepared', lambda c: ((), {}))],
+    'setIdManager': [('none', 'any', lambda c: ((None,), {})), ('none-prepared', 'prepared', lambda c: ((None,), {})),
+                     ('manager', 'eval', lambda c: ((__import__('biogeme.expressions.idmanager', fromlist=['x']).IdManager([c['r']], fx_db(), 7),), {}))],
+    'requiresDraws': [('noarg', 'any', lambda c: ((), {}))],
+    'getElementaryExpression': [('b1', 'any', lambda c: (('b1',), {})), ('x', 'any', lambda c: (('x',), {})), ('nope', 'any', lambda c: (('nope',), {}))],
+    'getClassName': [('noarg', 'any', lambda c: ((), {}))],
+    'getSignature': [('noarg', 'any', lambda c: ((), {})), ('prepared', 'prepared', lambda c: ((), {}))],
+    'embedExpression': [('Beta', 'any', lambda c: (('Beta',), {})), ('Variable', 'any', lambda c: (('Variable',), {})),
+                        ('self', 'any', lambda c: ((type(c['r']).__name__,), {})), ('class', 'any', lambda c: ((type(c['r']),), {}))],
+    'countPanelTrajectoryExpressions': [('noarg', 'any', lambda c: ((), {}))],
+}
+
+
+def _createfunction_post(f, ctx):
+    return f(_np([_B[0], _B[1]][: max(1, len(getattr(ctx['r'], 'id_manager').free_betas.names))] if getattr(ctx['r'], 'id_manager', None) is not None else [_B[0]]))
+
+
 def l2_tasks(tier):
-    return []
+    t = [dict(part='L2', group='fun', tier=tier), dict(part='L2', group='Database', tier=tier), dict(part='L2', group='IdManager', tier=tier),
+         dict(part='L2', group='BIOGEME', tier=tier), dict(part='L2', group='bioResults', tier=tier), dict(part='L2', group='KW', tier=tier),
+         dict(part='L2', group='uncovered', tier=tier)]
+    for i in range(8):
+        t.append(dict(part='L2', group='expr', shard=i, of=8, tier=tier))
+    return t
+
+
+def _pair(rec, label, newname, build, call_old, call_new, post, state_of, case, kindkey, nontrivial_if=None):
+    if os.environ.get('C20_TRACE'):
+        print('C20_TRACE', label, file=sys.__stderr__, flush=True)
+    old, eo = run_side(build, call_old, post, state_of)
+    new, en = run_side(build, call_new, post, state_of)
+    for e in (eo, en):
+        if type(e).__name__ == 'RuntimeError':
+            rec.retire = True  # engine exceptions are sticky in this process (DESIGN 3.1)
+            rec.count('l2_engine_runtime_errors')
+            if os.environ.get('C20_TRACE'):
+                print('C20_TRACE RuntimeError', label, str(e)[:200], file=sys.__stderr__, flush=True)
+    bad = compare_sides(old, new, newname)
+    both_ran = old['exc'] is None and new['exc'] is None
+    substantive = both_ran and (new['result'] is not None or bool(new['files']) or new['state'] is not None)
+    rec.case(('L2', label) if substantive or (not both_ran and old['exc'] == new['exc']) else None,
+             (label, old, new), outcome=('L2', tuple(sorted({b[0] for b in bad})), new['exc'], new['result'] is None))
+    if not both_ran:
+        rec.count('l2_pairs_where_both_sides_raise' if old['exc'] == new['exc'] else 'l2_pairs_with_different_outcome')
+    _viol(rec, 'L2 paired call', kindkey, label, bad, case)
+    return bad
+
+
+def l2_run(task, rec, only=None):
+    import inspect
+    import sys
+
+    D = discover()
+    group = task['group']
+    tier = task.get('tier', 'quick')
+    FR = _fun_recipes()
+    MR = _method_recipes()
+
+    def want(label):
+        return only is None or only == label
+
+    if group == 'fun':
+        for dmod, attr in sorted({(d, a) for (_, a, _, d) in D['mod_aliases']}):
+            r = FR.get((dmod, attr))
+            if r is None:
+                continue
+            alias = getattr(sys.modules[dmod], attr)
+            newname = _newname(alias)
+            newf = getattr(sys.modules[dmod], newname, None)
+            if newf is None:
+                continue  # reported by L1
+            build = r.get('build') or (lambda: {})
+            post = r.get('post') or (_eval_expr_post if r.get('evaluate') else None)
+            for al, mk in r['argsets']:
+                label = f'{dmod}.{attr}[{al}]'
+                if not want(label):
+                    continue
+
+                def co(c, mk=mk, alias=alias):
+                    a, k = mk(c)
+                    return alias(*a, **k)
+
+                def cn(c, mk=mk, newf=newf):
+                    a, k = mk(c)
+                    return newf(*a, **k)
+
+                _pair(rec, label, newname, build, co, cn, post, None, dict(part='L2', group='fun', label=label), f'function:{dmod}.{attr}')
+        rec.sample(dict(part='L2', group='fun', recipes=len(FR)))
+    elif group in ('Database', 'IdManager', 'BIOGEME', 'bioResults'):
+        for (cmod, cqual, alias, newname, dmod, dqual, kind) in D['pairs']:
+            if cqual != group:
+                continue
+            r = MR.get((cqual, alias))
+            if r is None:
+                continue
+            state_of = (lambda c: vars(c['r']))
+            for rl, build in r['receivers']:
+                for al, mk in r['argsets']:
+                    forms = ['inst'] + (['class'] if r.get('via_class') else [])
+                    for form in forms:
+                        label = f'{cqual}.{alias}[{rl};{al};{form}]'
+                        if not want(label):
+                            continue
+
+                        def co(c, mk=mk, alias=alias, form=form):
+                            a, k = mk(c)
+                            return getattr(c['r'] if form == 'inst' else type(c['r']), alias)(*a, **k)
+
+                        if r.get('new_call'):
+                            def cn(c, mk=mk, nc=r['new_call']):
+                                a, k = mk(c)
+                                return nc(c, a, k)
+                        else:
+                            def cn(c, mk=mk, newname=newname):
+                                a, k = mk(c)
+                                return getattr(c['r'], newname)(*a, **k)
+
+                        _pair(rec, label, newname, build, co, cn, r.get('post'), state_of,
+                              dict(part='L2', group=group, label=label), f'method:{cqual}.{alias}')
+        rec.sample(dict(part='L2', group=group))
+    elif group == 'expr':
+        exprs = sorted({(cm, cq) for (cm, cq, *_rest) in D['pairs']
+                        if any(k.__name__ == 'Expression' for k in D['classes'][(cm, cq)].__mro__)})
+        mine = exprs[task['shard']::task['of']]
+        for cm, cq in mine:
+            try:
+                probe = fx_expr(cq)
+            except Exception as e:  # noqa
+                probe = None
+                rec.count('l2_receiver_factory_failed')
+            if probe is None:
+                continue
+            for (cmod, cqual, alias, newname, dmod, dqual, kind) in D['pairs']:
+                if (cmod, cqual) != (cm, cq) or alias not in EXPR_ALIAS_ARGSETS:
+                    continue
+                for al, need, mk in EXPR_ALIAS_ARGSETS[alias]:
+                    if (need in ('eval', 'prepared', 'deriv') and cq not in EVALUABLE) or (need == 'deriv' and cq in NO_DERIVATIVES):
+                        rec.count('l2_skipped_not_safely_evaluable_in_engine')
+                        continue
+                    label = f'{cq}.{alias}[{al}]'
+                    if not want(label):
+                        continue
+
+                    def build(cq=cq, need=need):
+                        e = fx_expr(cq)
+                        if need == 'prepared':
+                            e.prepare(fx_db(), 5)
+                        return dict(r=e)
+
+                    def co(c, mk=mk, alias=alias):
+                        a, k = mk(c)
+                        return getattr(c['r'], alias)(*a, **k)
+
+                    def cn(c, mk=mk, newname=newname):
+                        a, k = mk(c)
+                        return getattr(c['r'], newname)(*a, **k)
+
+                    post = _createfunction_post if alias == 'createFunction' else None
+                    _pair(rec, label, newname, build, co, cn, post, lambda c: vars(c['r']),
+                          dict(part='L2', group='expr', shard=task.get('shard', 0), of=task.get('of', 1), label=label),
+                          f'method:{dqual}.{alias}' + ('' if dqual == cq else ':inherited'))
+        if mine:
+            rec.sample(dict(part='L2', group='expr', classes=[q for _, q in mine][:6]))
+    elif group == 'KW':
+        l2_keywords(rec, tier, want)
+    elif group == 'uncovered':
+        # bookkeeping: aliases / receiver pairs that no recipe reaches are counted, never silently skipped
+        unc = []
+        for dmod, attr in sorted({(d, a) for (_, a, _, d) in D['mod_aliases']}):
+            if (dmod, attr) not in FR:
+                unc.append(f'{dmod}.{attr}')
+        decl_cov = set()
+        pairs_unc = 0
+        for (cmod, cqual, alias, newname, dmod, dqual, kind) in D['pairs']:
+            is_expr = any(k.__name__ == 'Expression' for k in D['classes'][(cmod, cqual)].__mro__)
+            if is_expr:
+                try:
+                    has = alias in EXPR_ALIAS_ARGSETS and fx_expr(cqual) is not None
+                except Exception:  # noqa
+                    has = False
+            else:
+                has = (cqual, alias) in MR
+            if has:
+                decl_cov.add((dmod, dqual, alias))
+            else:
+                pairs_unc += 1
+        for d in D['class_decls']:
+            if tuple(d) not in decl_cov:
+                unc.append('.'.join(d))
+        rec.count('layer2_uncovered_aliases', len(unc))
+        rec.count('layer2_covered_aliases', len(D['fun_decls']) + len(D['class_decls']) - len(unc))
+        rec.count('layer2_uncovered_receiver_pairs', pairs_unc)
+        rec.case(None, ('uncovered', unc, pairs_unc), outcome=('L2-uncovered', len(unc)))
+        rec.sample(dict(part='L2', uncovered_aliases=unc[:40], uncovered_receiver_pairs=pairs_unc))
+
+
+# ---- obsolete keywords on real callables: f(old=v) vs f(new=v) (dropped keywords: f(old=v) vs f())
+def _kw_recipes():
+    from biogeme.parameters import Parameters
+    import biogeme.draws as dr
+
+    un = lambda: _np([0.1, 0.9, 0.5, 0.3, 0.7, 0.2])  # noqa: E731
+    R = {}
+    R['biogeme.draws.get_latin_hypercube_draws'] = dict(call=lambda c, kw: dr.get_latin_hypercube_draws(2, 3, **kw), values={'uniformNumbers': [un()]})
+    R['biogeme.draws.get_normal_wichura_draws'] = dict(call=lambda c, kw: dr.get_normal_wichura_draws(2, 3, **kw),
+                                                       values={'uniformNumbers': [_np([[0.1, 0.9, 0.5], [0.3, 0.7, 0.2]])]})
+    E = 'biogeme.expressions.base_expressions.Expression.'
+    ebuild = lambda: dict(r=fx_loglike())  # noqa: E731
+    R[E + 'prepare'] = dict(build=ebuild, call=lambda c, kw: c['r'].prepare(fx_db(), **kw) if kw else c['r'].prepare(fx_db(), 7),
+                            values={'numberOfDraws': [7]}, state=lambda c: vars(c['r']), default_new={'number_of_draws': 7})
+    R[E + 'create_function'] = dict(build=ebuild, call=lambda c, kw: c['r'].create_function(database=fx_db(), **kw)(_np(_B)),
+                                    values={'numberOfDraws': [5, 11]})
+    R[E + 'create_objective_function'] = dict(build=ebuild, call=lambda c, kw: c['r'].create_objective_function(database=fx_db(), **kw)(_np(_B)),
+                                              values={'numberOfDraws': [5]})
+    R[E + 'get_value_c'] = dict(build=ebuild, call=lambda c, kw: c['r'].get_value_c(database=fx_db(), **({'prepare_ids': True} if 'prepareIds' not in kw and 'prepare_ids' not in kw else {}), **kw),
+                                values={'numberOfDraws': [5], 'prepareIds': [True]})
+    R[E + 'get_value_and_derivatives'] = dict(build=ebuild, call=lambda c, kw: c['r'].get_value_and_derivatives(database=fx_db(), **({'prepare_ids': True} if 'prepareIds' not in kw and 'prepare_ids' not in kw else {}), **kw),
+                                              values={'numberOfDraws': [5], 'prepareIds': [True]})
+    Bq = 'biogeme.biogeme.BIOGEME.'
+
+    def mkb(c, kw):
+        import biogeme.biogeme as bb
+        base = dict(generate_pickle=False)
+        if 'generateHtml' not in kw and 'generate_html' not in kw:
+            base['generate_html'] = False
+        if 'saveIterations' not in kw and 'save_iterations' not in kw:
+            base['save_iterations'] = False
+        if 'numberOfThreads' not in kw and 'number_of_threads' not in kw:
+            base['number_of_threads'] = 1
+        if 'parameter_file' not in kw and 'parameters' not in kw:
+            base['parameters'] = Parameters()
+        b = bb.BIOGEME(fx_db(), fx_loglike(), **base, **kw)
+        return dict(vars(b), _params={n: b.biogeme_parameters.get_value(n) for n in sorted(b.biogeme_parameters.parameter_names)})
+
+    R[Bq + '__init__'] = dict(call=mkb, values={
+        'suggestScales': [True], 'numberOfThreads': [2], 'numberOfDraws': [13], 'missingData': [77777], 'parameter_file': ['PARAMS'],
+        'userNotes': ['a note'], 'generateHtml': [False], 'saveIterations': [False], 'seed_param': [4321]},
+        subst={'PARAMS': lambda: Parameters()})
+    R[Bq + 'estimate'] = dict(build=lambda: dict(r=fx_biogeme(bootstrap_samples=3)), call=lambda c, kw: (lambda r: (r.get_beta_values(), canon(r.data.bootstrap)))(c['r'].estimate(**kw)),
+                              values={'bootstrap': [True, False]})
+    R[Bq + 'simulate'] = dict(build=lambda: dict(r=fx_biogeme(formulas={'ll': fx_loglike()})), call=lambda c, kw: c['r'].simulate(**kw),
+                              values={'theBetaValues': [{'b1': 0.2 * _K, 'b2': 0.1}, None]})
+    Rq = 'biogeme.results.bioResults.'
+
+    def mkres(c, kw):
+        import biogeme.results as res
+        return res.bioResults(**kw).short_summary()
+
+    def raw():
+        return fx_results().data
+
+    def pick():
+        fn = fx_results().write_pickle()
+        return fn
+
+    R[Rq + '__init__'] = dict(call=mkres, values={'theRawResults': ['RAW'], 'pickleFile': ['PICKLE']}, subst={'RAW': raw, 'PICKLE': pick})
+    rb = lambda: dict(r=fx_results())  # noqa: E731
+    for m, k in (('get_latex', 'onlyRobust'), ('get_estimated_parameters', 'onlyRobust'), ('get_html', 'onlyRobust'), ('write_html', 'onlyRobust'),
+                 ('get_f12', 'robustStdErr'), ('write_f12', 'robustStdErr')):
+        R[Rq + m] = dict(build=rb, call=(lambda m: lambda c, kw: getattr(c['r'], m)(**kw))(m), values={k: [False, True]}, state=lambda c: vars(c['r']))
+    R[Rq + 'get_beta_values'] = dict(build=rb, call=lambda c, kw: c['r'].get_beta_values(**kw), values={'myBetas': [['b1'], None]})
+    R[Rq + 'get_betas_for_sensitivity_analysis'] = dict(build=rb, call=lambda c, kw: c['r'].get_betas_for_sensitivity_analysis(
+        **({'my_betas': ['b1', 'b2']} if 'myBetas' not in kw and 'my_betas' not in kw else {}), size=4, **kw),
+        values={'myBetas': [['b2']], 'useBootstrap': [False, True]})
+    return R
+
+
+def l2_keywords(rec, tier, want):
+    D = discover()
+    KR = _kw_recipes()
+    uncovered = []
+    for entry in D['dp']:
+        r = KR.get(entry['label'])
+        obsolete = {}
+        for _, d in entry['levels']:
+            obsolete.update(d)
+        if r is None:
+            uncovered.extend(f'{entry["label"]}({k}=)' for k in obsolete)
+            continue
+        for old in sorted(obsolete):
+            new = obsolete[old]
+            if old not in r['values']:
+                uncovered.append(f'{entry["label"]}({old}=)')
+                continue
+            for vi, v in enumerate(r['values'][old]):
+                label = f'{entry["label"]}({old}=#{vi})'
+                if not want(label):
+                    continue
+                build = r.get('build') or (lambda: {})
+
+                def val(v=v, r=r):
+                    return r['subst'][v]() if isinstance(v, str) and v in r.get('subst', {}) else v
+
+                def co(c, old=old, r=r, val=val):
+                    return r['call'](c, {old: val()})
+
+                def cn(c, new=new, r=r, val=val):
+                    return r['call'](c, {new: val()} if new else {})
+
+                old_side, eo = run_side(build, co, None, r.get('state'))
+                new_side, en = run_side(build, cn, None, r.get('state'))
+                for e in (eo, en):
+                    if type(e).__name__ == 'RuntimeError':
+                        rec.retire = True
+                bad = compare_sides(old_side, new_side, new or old, extra_warn_names=(old,))
+                both = old_side['exc'] is None and new_side['exc'] is None
+                rec.case(('L2KW', label) if both else None, (label, old_side, new_side),
+                         outcome=('L2KW', tuple(sorted({b[0] for b in bad})), new_side['exc']))
+                if not both:
+                    rec.count('l2_keyword_pairs_where_a_side_raises')
+                _viol(rec, 'L2 obsolete keyword vs new keyword', f'keyword:{entry["label"]}({old}=)', label, bad,
+                      dict(part='L2', group='KW', label=label))
+    rec.count('layer2_uncovered_obsolete_keywords', len(uncovered))
+    rec.sample(dict(part='L2', group='KW', uncovered_keywords=uncovered))
+
+
+def l2_replay(case, rec):
+    task = dict(part='L2', group=case['group'], shard=case.get('shard', 0), of=case.get('of', 1))
+    l2_run(task, rec, only=case['label'])
 
 
 def _viol(rec, layer, kindkey, label, bad, case):
